@@ -38,17 +38,20 @@ EXPLANATION = ("Lean theorems over the table extracted from the current source: 
                "Outside: ids produced by addons / clang-tidy / rule files / library configuration (exempt by the property), "
                "gui/, tools/, htmlreport/.")
 THEOREMS = ["Cppcheck.ErrorIds.ids_subset_partial", "Cppcheck.ErrorIds.ids_subset_counterexample",
-            "Cppcheck.ErrorIds.emitters_listed_partial", "Cppcheck.ErrorIds.reached_ids_printed",
-            "Cppcheck.ErrorIds.dynamic_rules_exempt", "Cppcheck.ErrorIds.reach_sound",
-            "Cppcheck.ErrorIds.known_unlisted_are_unlisted"]
+            "Cppcheck.ErrorIds.emitters_listed_partial", "Cppcheck.ErrorIds.errorlist_explained",
+            "Cppcheck.ErrorIds.reached_eq", "Cppcheck.ErrorIds.reach_sound", "Cppcheck.ErrorIds.dynamic_rules_exempt"]
 MODULES = ["Cppcheck.Props.C28"]
 
 REPO = core.REPO
 CACHE = os.path.join(core.VERIF, ".build", "cache", "c28")
 BUILD_DEFINES = ["DANMAR_CPPCHECK_VERIF", "HAVE_BOOST", "HAVE_EXECINFO_H=1", "NDEBUG"]
-CLANG = ["clang++-14", "-std=gnu++17", "-fsyntax-only", "-w"] + ["-D" + d for d in BUILD_DEFINES] + \
+
+
+def clang_cmd():
+    return ["clang++-14", "-std=gnu++17", "-fsyntax-only", "-w"] + ["-D" + d for d in BUILD_DEFINES] + \
         ["-I%s/%s" % (REPO, d) for d in ("lib", "cli", "frontend", "externals", "externals/simplecpp", "externals/tinyxml2", "externals/picojson")] + \
         ["-Xclang", "-ast-dump=json"]
+
 
 # macros decided for the text layer (same configuration as the build / the clang run)
 PP_DEFINED = {"DANMAR_CPPCHECK_VERIF", "HAVE_BOOST", "HAVE_EXECINFO_H", "NDEBUG", "__GNUC__", "__linux__", "__cplusplus", "__unix__"}
@@ -1031,7 +1034,7 @@ def headers_digest():
         for f in sorted(glob.glob(os.path.join(REPO, d, "*.h"))):
             h.update(f.encode())
             h.update(open(f, "rb").read())
-    h.update(" ".join(CLANG).encode())
+    h.update(" ".join(clang_cmd()).encode())
     h.update(b"extractor-v2")
     return h.hexdigest()
 
@@ -1043,10 +1046,12 @@ def ast_extract(path, flt, hdig, fresh=False):
     cp = os.path.join(CACHE, key + ".json")
     if not fresh and os.path.exists(cp):
         try:
-            return json.load(open(cp)), True
-        except ValueError:
+            r = json.load(open(cp))
+            os.utime(cp, None)
+            return r, True
+        except (ValueError, OSError):
             pass
-    r = subprocess.run(CLANG + ["-Xclang", "-ast-dump-filter=" + flt, path], stdout=subprocess.PIPE, stderr=subprocess.PIPE)
+    r = subprocess.run(clang_cmd() + ["-Xclang", "-ast-dump-filter=" + flt, path], stdout=subprocess.PIPE, stderr=subprocess.PIPE)
     out = r.stdout.decode("utf-8", "replace")
     if r.returncode != 0 and not out.strip():
         return dict(error="clang failed on %s: %s" % (path, r.stderr.decode("utf-8", "replace")[-600:]), funcs=[]), False
@@ -1113,7 +1118,7 @@ def include_closure_digest(path):
     h = hashlib.sha1()
     for p in sorted(seen):
         h.update(p.encode()); h.update(seen[p].encode())
-    h.update(" ".join(CLANG).encode())
+    h.update(" ".join(clang_cmd()).encode())
     h.update(b"extractor-v5")
     return h.hexdigest()
 
@@ -1164,7 +1169,20 @@ def plan_dumps(scans, all_files):
     return sorted(out), unplaced
 
 
+def prune_cache(keep=600):
+    try:
+        fs = [os.path.join(CACHE, f) for f in os.listdir(CACHE) if f.endswith(".json")]
+        if len(fs) > keep:
+            fs.sort(key=os.path.getmtime)
+            for f in fs[:len(fs) - keep]:
+                os.remove(f)
+    except OSError:
+        pass
+
+
 def run_dumps(jobs, fresh, workers=2):
+    os.makedirs(CACHE, exist_ok=True)
+    prune_cache()
     digests = {}
     for (src, flt) in jobs:
         if src not in digests:
@@ -1750,6 +1768,94 @@ class Resolver:
         return False
 
 
+def text_wrapper_calls(scans, R):
+    """calls of id-forwarding wrappers (directly or through function-like macros) from functions the AST layer did not dump:
+    resolved from the text when the id argument is a string literal, otherwise reported (fail closed)"""
+    wrappers = {}
+    for f in R.list:
+        for t in R.templates.get(f["node"], []):
+            for alt in t["id"]:
+                if len(alt) == 1 and not isinstance(alt[0], str) and alt[0][0] == "P":
+                    sv = sorted(set(alt_str(a) for a in t["sev"] if is_literal(a)))
+                    wrappers.setdefault(f["name"], {})[(f["nparams"], alt[0][1])] = sv[0] if len(sv) == 1 else "?"
+    for n in ("reportError", "reportErr"):      # candidate tokens of the text layer: always inside dumped functions
+        wrappers.pop(n, None)
+    # function-like macros that expand to a wrapper call
+    macros = {}
+    for sc in scans.values():
+        for m in re.finditer(r"^[ \t]*#[ \t]*define[ \t]+(\w+)\(([^)\n]*)\)((?:[^\n]*\\\n)*[^\n]*)", sc["src"], re.M):
+            macros[m.group(1)] = ([p.strip() for p in m.group(2).split(",")], m.group(3).replace("\\\n", " "))
+    mw = {}     # macro -> ("lit", id, sev) | ("idx", j, sev)
+    for _ in range(4):
+        for M, (params, body) in macros.items():
+            if M in mw:
+                continue
+            code, full = lex(body)
+            for name in list(wrappers) + list(mw):
+                mm = re.search(r"\b%s\s*\(" % re.escape(name), code)
+                if not mm:
+                    continue
+                args = text_args(code, full, mm.end() - 1)
+                if args is None:
+                    continue
+                if name in wrappers:
+                    cands = [(idx, sv) for (np, idx), sv in wrappers[name].items() if np == len(args)]
+                else:
+                    cands = [(mw[name][1], mw[name][2])] if mw[name][0] == "idx" else []
+                    if mw[name][0] == "lit":
+                        mw[M] = mw[name]
+                for idx, sv in cands:
+                    a = re.sub(r"^\((.*)\)$", r"\1", args[idx].strip()).strip()
+                    if re.fullmatch(r'"[^"\\]*"', a):
+                        mw[M] = ("lit", a[1:-1], sv)
+                    elif a in params:
+                        mw[M] = ("idx", params.index(a), sv)
+    byfile = {}
+    for f in R.list:
+        byfile.setdefault(f["file"], []).append(f)
+    ems, probs = [], []
+    names = dict((n, None) for n in wrappers)
+    names.update((m, None) for m in mw)
+    if not names:
+        return ems, probs
+    rx = re.compile(r"\b(%s)\s*\(" % "|".join(re.escape(n) for n in names))
+    for sc in scans.values():
+        for m in rx.finditer(sc["code"]):
+            off = m.start()
+            line = sc["code"].count("\n", 0, off) + 1
+            fn = None
+            for f in sc["fns"]:
+                if f.body_start <= off <= f.body_end and (fn is None or f.body_start >= fn.body_start):
+                    fn = f
+            if fn is None:
+                continue        # declaration / definition header
+            if any(g["line"] is not None and g["endline"] is not None and g["line"] <= line <= g["endline"] for g in byfile.get(sc["path"], [])):
+                continue        # inside a dumped function: the AST layer sees the (expanded) call
+            name = m.group(1)
+            args = text_args(sc["code"], sc["full"], m.end() - 1)
+            where = "%s:%d" % (os.path.relpath(sc["path"], REPO), line)
+            if args is None:
+                probs.append("%s: cannot parse the arguments of %s(...)" % (where, name))
+                continue
+            if name in mw:
+                kind, v, sv = mw[name]
+                if kind == "lit":
+                    ems.append(dict(fn=fn.qual + "/text", site=fn.qual + "/text", id=v, sev=sv, file=sc["path"], line=line, sitefile=sc["path"], siteline=line))
+                    continue
+                idxs = [(v, sv)]
+            else:
+                idxs = [(idx, sv) for (np, idx), sv in wrappers[name].items() if np == len(args)]
+                if not idxs:
+                    continue    # another overload / unrelated function of the same name
+            for idx, sv in idxs:
+                a = args[idx].strip() if idx < len(args) else ""
+                if re.fullmatch(r'"[^"\\]*"', a):
+                    ems.append(dict(fn=fn.qual + "/text", site=fn.qual + "/text", id=a[1:-1], sev=sv, file=sc["path"], line=line, sitefile=sc["path"], siteline=line))
+                else:
+                    probs.append("%s: call of the id-forwarding function %s in %s (not dumped) with a non-literal id argument %r" % (where, name, fn.qual, a[:40]))
+    return ems, probs
+
+
 def extract_all(fresh=False, verbose=False):
     """run the whole translator; returns dict with tables and the list of fail-closed problems"""
     t0 = time.time()
@@ -1797,6 +1903,8 @@ def extract_all(fresh=False, verbose=False):
         reg = []
     R = Resolver(funcs, scans).run()
     problems += R.unresolved
+    tw_ems, tw_probs = text_wrapper_calls(scans, R)
+    problems += tw_probs
     # virtual dispatch of Check::getErrorMessages to every registered check
     edges = set(R.edges)
     nodes = {f["node"]: f for f in R.list}
@@ -1824,9 +1932,11 @@ def extract_all(fresh=False, verbose=False):
         if cands:
             e["fn"] = e["site"] = cands[0]["node"]
         else:
-            e["fn"] = e["site"] = re.sub(r"^[\w.]+:", "", e["fn"]) + "/text"
+            e["fn"] = e["site"] = re.sub(r"^[\w.]+\.(?:cpp|h):", "", e["fn"]) + "/text"
         e["sitefile"], e["siteline"] = e["file"], e["line"]
-    return dict(emitters=R.emitters + ie_ems, dynamic=R.dynamic, edges=sorted(edges), roots=root, problems=problems, registered=reg,
+    for e in tw_ems:
+        e["fn"] = e["site"] = re.sub(r"^[\w.]+\.(?:cpp|h):", "", e["fn"])
+    return dict(emitters=R.emitters + ie_ems + tw_ems, dynamic=R.dynamic, edges=sorted(edges), roots=root, problems=problems, registered=reg,
                 nfuncs=len(R.list), ncands=sum(len(s["cands"]) for s in scans.values()), explained=explained, dump_stats=stats,
                 njobs=len(jobs), times=dict(text=round(t1 - t0, 1), ast=round(t2 - t1, 1), resolve=round(time.time() - t2, 1)),
                 ietab=ietab, resolver=R)
@@ -1853,6 +1963,7 @@ def enc(s):
     return n
 
 
+PASSES = 2      # must equal `passes` in lean/Cppcheck/Props/C28.lean
 SEVS = ("none", "error", "warning", "style", "performance", "portability", "information", "debug", "internal")
 KIND_LEAN = {"library-function": "libraryFunction", "addon": "addon", "clang-tidy": "clangTidy", "rule-file": "ruleFile",
              "replay-xml": "replayXml", "replay-pipe": "replayPipe", "internal-error-id": "internalErrorId"}
@@ -1878,7 +1989,14 @@ def props_lists():
 
 
 def errorlist_ids(ctx):
-    rc, out, err = core.sh([ctx.cppcheck, "--errorlist"], timeout=120)
+    for attempt in range(20):
+        try:
+            rc, out, err = core.sh([ctx.cppcheck, "--errorlist"], timeout=120)
+            break
+        except OSError:
+            time.sleep(3)
+    else:
+        return None, "cannot execute %s" % ctx.cppcheck
     if rc != 0:
         return None, "cppcheck --errorlist exited with %s: %s" % (rc, err[-300:])
     try:
@@ -1913,10 +2031,32 @@ def build_tables(X, elist):
     rows = sorted(rows)
     edges = sorted(set((fn_ix[a], fn_ix[b]) for a, b in X["edges"]))
     roots = sorted(fn_ix[r] for r in X["roots"])
+    # order the edges by breadth-first level of the caller: one pass of the Lean `stepBits` then reaches everything reachable
+    level = {r: 0 for r in roots}
+    frontier = list(roots)
+    succ = {}
+    for a, b in edges:
+        succ.setdefault(a, []).append(b)
+    while frontier:
+        nxt = []
+        for a in frontier:
+            for b in succ.get(a, []):
+                if b not in level:
+                    level[b] = level[a] + 1
+                    nxt.append(b)
+        frontier = nxt
+    edges.sort(key=lambda e: (level.get(e[0], 1 << 30), e[0], e[1]))
+    bits = 0
+    for r in roots:
+        bits |= 1 << r
+    for _ in range(PASSES):
+        for a, b in edges:
+            if (bits >> a) & 1:
+                bits |= 1 << b
     dyn = sorted(set((fn_ix[d["fn"]], KIND_LEAN[d["kind"]], d["line"] or 0, d["expr"], os.path.relpath(d["file"], REPO) if d["file"] else "?") for d in X["dynamic"]))
     el = sorted(set(enc(i) for i, _ in elist))
     idnames = sorted(set(r[5] for r in rows) | set(i for i, _ in elist))
-    return dict(fn_names=fn_names, rows=rows, edges=edges, roots=roots, dyn=dyn, errorlist=el, idnames=idnames,
+    return dict(fn_names=fn_names, rows=rows, edges=edges, roots=roots, dyn=dyn, errorlist=el, idnames=idnames, reached=bits,
                 errorlist_names=sorted(set(i for i, _ in elist)))
 
 
@@ -1958,6 +2098,9 @@ def gen_lean(T, witness):
     L.append("")
     L.append("/-- CppCheck::getErrorMessages -/")
     L.append("def roots : List Nat := [%s]" % ", ".join(str(r) for r in T["roots"]))
+    L.append("")
+    L.append("/-- bit set of the functions reached from the roots (computed by the translator; Props/C28.lean proves it equals `reachBits calls roots passes`) -/")
+    L.append("def reachedLit : Nat := 0x%x" % T["reached"])
     L.append("")
     L.append("/-- (c) id expressions that are dynamic by design -/")
     L.append("def dynRules : List DynRule := [\n  %s\n]" % ",\n  ".join("⟨%d, .%s, %d⟩ /- %s  %s -/" % (d[0], d[1], d[2], d[4], d[3].replace("-/", "- /")) for d in T["dyn"]))
@@ -2004,3 +2147,235 @@ def translate(ctx):
     T, X, problems = make_tables(ctx, fresh=False)
     ctx.write_gen("ErrorIds", gen_lean(T, T["witness"]))
     return T, X, problems
+
+
+BASE_ARGS = ["--enable=all", "--inconclusive", "--xml", "--quiet"]
+OPTION_SETS = [
+    [],
+    ["--std=c89", "--std=c++03"],
+    ["--platform=win64"],
+    ["--platform=unix32", "--library=posix"],
+    ["--library=gnu", "--library=posix"],
+    ["--check-level=exhaustive"],
+    ["--check-library", "--debug-warnings"],
+    ["--library=windows", "--platform=win32A"],
+]
+ALWAYS = {"checkersReport", "missingInclude", "missingIncludeSystem", "unusedFunction", "unmatchedSuppression", "normalCheckLevelMaxBranches"}
+
+
+def run_cppcheck(ctx, workdir, args, timeout=120):
+    """-> (list of (id, severity), rc, stderr tail)"""
+    for attempt in range(20):
+        try:
+            rc, out, err = core.sh([ctx.cppcheck] + BASE_ARGS + list(args), cwd=workdir, timeout=timeout)
+            break
+        except OSError:         # the binary is being relinked by a concurrent check of another property
+            time.sleep(3)
+    else:
+        raise core.CheckBroken("cannot execute %s" % ctx.cppcheck)
+    ids = []
+    for m in re.finditer(r'<error id="([^"]*)" severity="([^"]*)"', err):
+        ids.append((m.group(1).replace("&lt;", "<").replace("&gt;", ">").replace("&amp;", "&"), m.group(2)))
+    wellformed = "</results>" in err or rc == -999
+    return ids, rc, ("" if wellformed else "XML output incomplete: " + err[-200:])
+
+
+def load_witnesses():
+    p = os.path.join(core.VERIF, "corpus", "C28", "witnesses.json")
+    return json.load(open(p)) if os.path.exists(p) else []
+
+
+def materialise(ctx, files, tag):
+    d = os.path.join(ctx.tmp, tag)
+    os.makedirs(d, exist_ok=True)
+    for name, content in files.items():
+        open(os.path.join(d, name), "w").write(content)
+    return d
+
+
+def dynamic_match(i):
+    """observed ids that belong to a dynamic rule the property exempts"""
+    if i.endswith("Called"):
+        return "library-function"
+    if i.startswith("clang-tidy-"):
+        return "clang-tidy"
+    if re.match(r"^(misra|cert|y2038|threadsafety|naming|premium)[-A-Za-z0-9_.]*-", i) or re.match(r"^[a-z0-9_]+-[\w.-]+$", i):
+        return "addon"
+    return None
+
+
+def snippets(rng, n):
+    """small generated programs around constructs that trigger many different emitters (validates the table, searches for unlisted ids)"""
+    stmts_c = [
+        "int a[5]; a[%d] = 0;", "int *p = 0; *p = %d;", "int x; x = x + %d;", "char *s = malloc(%d); s[0] = 0;", "int y = %d / 0;",
+        "unsigned u = %d; if (u < 0) {}", "int z = %d; z = z;", "char b[4]; strcpy(b, \"%dabcdef\");", "FILE *f = fopen(\"%d\", \"r\"); fgetc(f);",
+        "int i; for (i = 0; i < %d; i++) { if (i == 1) {} } ", "int k = %d; if (k == 1 && k == 2) {}", "int q = 1 << %d;", "char c = %d; int arr[256]; arr[c] = 0;",
+        "int m = %d; switch (m) { case 1: m = 2; case 2: m = 3; break; }", "int *r = malloc(%d * sizeof(int)); r = 0;", "printf(\"%%s %%d\", %d);",
+        "int w = %d; if (w = 3) {}", "double d = %d; if (d == 0.1) {}", "int v = %d; return v; v++;", "int t = sizeof(%d);", "memset(a2, 0, sizeof(a2) * %d);",
+    ]
+    stmts_cpp = [
+        "std::vector<int> v(%d); v[%d] = 1;", "std::string s; s.c_str(); if (s.size() == %d) {}", "int *p = new int[%d]; delete p;",
+        "std::vector<int> v; for (auto it = v.begin(); it != v.end(); ++it) { v.push_back(%d); }", "auto x = %d; std::string t = std::string(\"a\").substr(%d);",
+        "class C%d { public: int m; C%d() {} };", "std::list<int> l; if (l.size() == %d) {}", "int a = %d; int b = std::move(a); (void)a;",
+        "struct B%d { virtual void f(); ~B%d() {} };", "char *p = (char*)malloc(%d); delete p;", "throw new int(%d);", "std::map<int,int> m; m[%d]; if (m.find(1) != m.end()) m[1];",
+    ]
+    out = []
+    for k in range(n):
+        cpp = rng.random() < 0.5
+        pool = stmts_cpp + stmts_c if cpp else stmts_c
+        body = []
+        for _ in range(rng.randrange(2, 7)):
+            st = rng.choice(pool)
+            cnt = st.count("%d")
+            vals = tuple(rng.choice([0, 1, 2, 5, 10, 31, 32, 64, 100, 255, 300, -1]) for _ in range(cnt))
+            try:
+                body.append(st % vals)
+            except (TypeError, ValueError):
+                continue
+        hdr = "#include <stdio.h>\n#include <stdlib.h>\n#include <string.h>\n" + ("#include <vector>\n#include <string>\n#include <list>\n#include <map>\n" if cpp else "")
+        src = hdr + "int a2[10];\nint f%d(void) {\n  %s\n  return 0;\n}\n" % (k, "\n  ".join(body))
+        out.append(("gen%d.%s" % (k, "cpp" if cpp else "c"), src))
+    return out
+
+
+def classify(i, T):
+    """known-finding classes: the id is one of knownUnlisted of Props/C28.lean; the class says why --errorlist misses it"""
+    if i not in T["lists"]["knownUnlisted"]:
+        return None
+    reached = any(r[5] == i and (T["reached"] >> r[1]) & 1 for r in T["rows"])
+    return "unlisted-id:emitter-reached-from-getErrorMessages-but-not-printed" if reached else "unlisted-id:emitter-not-called-from-getErrorMessages"
+
+
+def run(ctx, res):
+    rng = ctx.rng
+    thorough = ctx.tier == "thorough"
+    t0 = time.time()
+    # ---- translator ---------------------------------------------------------------------------------------------
+    X = extract_all(fresh=thorough)
+    problems = list(X["problems"])
+    elist, err = errorlist_ids(ctx)
+    if err:
+        problems.append(err)
+        elist = []
+    lists, bad = props_lists()
+    problems += bad
+    T = build_tables(X, elist)
+    T["lists"] = lists
+    T["unlisted"] = sorted(set(r[5] for r in T["rows"] if not row_exempt(r, lists) and r[5] not in T["errorlist_names"]), key=enc)
+    T["witness"] = T["unlisted"][0] if T["unlisted"] else None
+    ctx.write_gen("ErrorIds", gen_lean(T, T["witness"]))
+    res.extra["translator"] = dict(functions=X["nfuncs"], candidates=X["ncands"], explained_by_ast=X["explained"], dumps=X["njobs"], dump_cache=X["dump_stats"],
+                                   emitters=len(T["rows"]), distinct_ids=len(set(r[5] for r in T["rows"])), call_edges=len(T["edges"]),
+                                   errorlist_ids=len(T["errorlist"]), dynamic_rules=len(T["dyn"]), times=X["times"], unlisted_not_exempt=T["unlisted"])
+    res.oblig("T:extraction-complete", not problems, "translation",
+              "" if not problems else "%d emitting sites / shapes not resolved (fail closed):\n%s" % (len(problems), "\n".join(problems[:40])))
+    res.oblig("T:tables-plausible", len(T["rows"]) >= 500 and len(T["errorlist"]) >= 300 and len(T["roots"]) == 1 and len(T["edges"]) >= 1500,
+              "translation", "emitters=%d errorlist=%d roots=%d edges=%d" % (len(T["rows"]), len(T["errorlist"]), len(T["roots"]), len(T["edges"])))
+    res.extra["translate_s"] = round(time.time() - t0, 1)
+    # ---- theorems ------------------------------------------------------------------------------------------------
+    core.prove(ctx, res, MODULES, THEOREMS)
+    # the codes in the tables are `enc` of the names next to them (evaluated by Lean, not by the kernel)
+    rc, out = ctx.lean_run("import Cppcheck.Props.C28\nopen Cppcheck.ErrorIds Cppcheck.Gen.ErrorIds\n"
+                           "#eval (idNames ++ exemptIds ++ infeasibleIds ++ knownUnlisted).all (fun p => enc p.1 == p.2)\n"
+                           "#eval (emitters.all fun e => idNames.any fun p => p.2 == e.id) && (errorlistIds.all fun i => idNames.any fun p => p.2 == i)\n"
+                           "#eval Cppcheck.ErrorIds.passes\n")
+    vals = [l.strip() for l in out.split("\n") if l.strip()]
+    res.oblig("T:id-codes-are-enc-of-names", rc == 0 and vals[:3] == ["true", "true", str(PASSES)], "translation", out[-400:])
+    # knownUnlisted must not exclude more than necessary: every entry is an id of the emitter table
+    stale = [i for i in lists["knownUnlisted"] + lists["infeasibleIds"] if i not in set(r[5] for r in T["rows"])]
+    # (a note, not an obligation: an emitter that upstream removed must not raise an alarm)
+    res.extra["exclusion_list_entries_without_emitter"] = stale
+
+    # ---- correspondence: observed ids of real runs ---------------------------------------------------------------------
+    table_ids = set(r[5] for r in T["rows"])
+    table_pairs = {}
+    for r in T["rows"]:
+        table_pairs.setdefault(r[5], set()).add(r[2])
+    elset = set(T["errorlist_names"])
+    exempt_ids = set(lists["exemptIds"])
+    cli_only = set(i for i in table_ids if all(r[3] == "cli" for r in T["rows"] if r[5] == i))
+    cases = []
+    for w in load_witnesses():
+        cases.append(dict(tag="w_" + w["id"], files=w["files"], args=w["args"] + w.get("analyse", []), expect=w["id"], origin="corpus"))
+    samples = sorted(glob.glob(os.path.join(REPO, "samples", "*", "*.c*")))
+    cfgs = sorted(glob.glob(os.path.join(REPO, "test", "cfg", "*.c")) + glob.glob(os.path.join(REPO, "test", "cfg", "*.cpp")))
+    pick = samples if thorough else rng.sample(samples, min(14, len(samples)))
+    for k, p in enumerate(pick):
+        opts = OPTION_SETS[k % len(OPTION_SETS)] if not thorough else None
+        for oi, o in enumerate(OPTION_SETS if thorough else [opts]):
+            cases.append(dict(tag="s%d_%d" % (k, oi), files={os.path.basename(p): open(p, errors="replace").read()}, args=o + [os.path.basename(p)], origin="samples"))
+    small_cfg = [p for p in cfgs if os.path.getsize(p) < (400000 if thorough else 30000)]
+    for k, p in enumerate(small_cfg if thorough else rng.sample(small_cfg, min(5, len(small_cfg)))):
+        lib = os.path.basename(p).split(".")[0]
+        o = ["--library=" + lib] if os.path.exists(os.path.join(REPO, "cfg", lib + ".cfg")) else []
+        cases.append(dict(tag="c%d" % k, files={os.path.basename(p): open(p, errors="replace").read()}, args=o + ["--check-library", "--debug-warnings", os.path.basename(p)], origin="test/cfg"))
+    for k, (name, src) in enumerate(snippets(rng, 120 if thorough else 24)):
+        cases.append(dict(tag="g%d" % k, files={name: src}, args=OPTION_SETS[k % len(OPTION_SETS)] + [name], origin="generated"))
+
+    def one(c):
+        d = materialise(ctx, c["files"], c["tag"])
+        ids, rc, bad = run_cppcheck(ctx, d, c["args"], timeout=300 if thorough else 90)
+        return c, ids, rc, bad
+
+    missed, sev_mism, broken = {}, {}, []
+    viol = {}
+    seen_ids = set()
+    with concurrent.futures.ThreadPoolExecutor(max_workers=3) as ex:
+        for c, ids, rc, bad in ex.map(one, cases):
+            canon = hashlib.sha1(json.dumps([c["files"], c["args"]], sort_keys=True).encode()).hexdigest()
+            idset = sorted(set(ids))
+            nontriv = any(i not in ALWAYS for i, _ in idset)
+            res.case(canon, nontriv, dict(case=c["tag"], origin=c["origin"], args=c["args"], reported=[i for i, _ in idset][:12]) if nontriv and c["origin"] != "corpus" else None)
+            res.count("origin:" + c["origin"])
+            res.count("ids-per-run:%s" % min(len(idset), 8))
+            if bad or rc == -999:
+                broken.append("%s: %s" % (c["tag"], bad or "timeout"))
+            if c.get("expect") and c["expect"] not in [i for i, _ in idset]:
+                res.count("witness-no-longer-reports-its-id")
+                res.notes.append("witness %s no longer makes cppcheck report %s" % (c["tag"], c["expect"]))
+            for (i, sv) in idset:
+                seen_ids.add(i)
+                dyn = dynamic_match(i) if i not in table_ids else None
+                if i not in table_ids and not dyn:
+                    missed.setdefault(i, c["tag"])
+                if i in table_ids and sv not in table_pairs[i] and "unknown" not in table_pairs[i]:
+                    sev_mism.setdefault((i, sv), c["tag"])
+                # P_impl: the reported id can be looked up in --errorlist, or is exempt
+                ok = i in elset or sv in ("debug", "internal") or i in exempt_ids or i in cli_only or dyn is not None
+                if not ok and i not in viol:
+                    viol[i] = (c, sv)
+            res.traces_validated += 1
+    res.extra["distinct_ids_observed"] = len(seen_ids)
+    res.extra["runs"] = len(cases)
+    res.oblig("C:observed-ids-in-emitter-table", not missed, "correspondence",
+              "" if not missed else "cppcheck reported ids the translator has no emitter for (a site was missed): %s" % sorted(missed.items())[:8])
+    res.oblig("C:observed-severities-in-emitter-table", not sev_mism, "correspondence",
+              "" if not sev_mism else "reported (id, severity) pairs that no emitter of the table has: %s" % sorted((k, v) for k, v in sev_mism.items())[:8])
+    res.oblig("C:runs-wellformed", not broken, "correspondence", "; ".join(broken[:5]))
+    for i, (c, sv) in sorted(viol.items()):
+        key = classify(i, T)
+        res.violation("cppcheck reports id '%s' (severity %s) for %s but --errorlist does not print it" % (i, sv, c["tag"]),
+                      dict(id=i, severity=sv, files=c["files"], args=c["args"],
+                           replay_cmd="./check.py C28 --replay <this file>"), concrete=True, key=key)
+    # ---- search when an obligation broke and nothing concrete is known yet: target the unlisted ids ---------------------------
+    if any(not o["ok"] for o in res.obligations) and not any(v["key"] is None for v in res.violations):
+        new = [i for i in T["unlisted"] if i not in lists["knownUnlisted"]]
+        res.extra["search_unlisted_without_witness"] = new
+        # the corpus / sample runs above are the search; name the emitters so that a witness can be written
+        for i in new[:10]:
+            sites = sorted(set("%s:%d (%s)" % (r[7], r[4], r[6]) for r in T["rows"] if r[5] == i))
+            res.notes.append("unlisted id %s emitted at %s" % (i, "; ".join(sites[:3])))
+        res.extra["notes"] = res.notes[-20:]
+
+
+def replay(ctx, res, rp):
+    elist, err = errorlist_ids(ctx)
+    elset = set(i for i, _ in (elist or []))
+    d = materialise(ctx, rp["files"], "replay")
+    ids, rc, bad = run_cppcheck(ctx, d, rp["args"])
+    got = [i for i, _ in ids]
+    still = rp["id"] in got and rp["id"] not in elset
+    print("replay: cppcheck %s -> ids %s; '%s' in --errorlist: %s" % (" ".join(rp["args"]), sorted(set(got)), rp["id"], rp["id"] in elset))
+    if still:
+        print("VIOLATION property=C28 replay=(replayed) id '%s' is reported but not printed by --errorlist" % rp["id"])
+    return 1 if still else 0
